@@ -12,6 +12,7 @@ import (
 	"strings"
 	"testing"
 
+	"github.com/ozontech/seq-db/conf"
 	"github.com/ozontech/seq-db/frac"
 	"github.com/ozontech/seq-db/frac/token"
 	"github.com/ozontech/seq-db/parser"
@@ -278,10 +279,40 @@ func TestVerifC13(t *testing.T) {
 			judge(r, c13Case{Kind: "glob", Query: q, Tokens: sortedToks, Ordered: true})
 		}
 	})
+	// (1b) the byte 0xff (the largest byte; never part of valid UTF-8) in tokens and patterns: case-sensitive
+	// parsing keeps it as it is. Patterns over {a, 0xff, *} len<=3 x tokens over {a, 0xff} len<=3.
+	{
+		bwords := func(alpha []string, maxLen int) []string {
+			res, prev := []string{""}, []string{""}
+			for l := 1; l <= maxLen; l++ {
+				var cur []string
+				for _, p := range prev {
+					for _, c := range alpha {
+						cur = append(cur, p+c)
+					}
+				}
+				res = append(res, cur...)
+				prev = cur
+			}
+			return res
+		}
+		conf.CaseSensitive = true
+		btoks := bwords([]string{"a", "\xff"}, 3)
+		bsorted := append([]string{}, btoks...)
+		sort.Strings(bsorted)
+		for _, p := range bwords([]string{"a", "\xff", "*"}, 3) {
+			if p == "" || strings.Contains(p, "**") {
+				continue
+			}
+			judge(r, c13Case{Kind: "glob", Query: quoteFilter(p), Tokens: btoks, Ordered: false})
+			judge(r, c13Case{Kind: "glob", Query: quoteFilter(p), Tokens: bsorted, Ordered: true})
+		}
+		conf.CaseSensitive = false
+	}
 	r.Sample(c13Case{Kind: "glob", Query: `f:"a*b*"`, Tokens: sortedToks[:8], Ordered: true})
 	// ---- (2) ranges ----
 	ends := []string{"*", `""`, "1", "2", "10", "-1", "1.5", "1e1", "a", "b", "ab", "0"}
-	rtoks := append(words("ab", 2), "1", "2", "10", "-1", "1.5", "1e1", "01", "1.0", "0", "-0", "9", "11", "1.49", "2e0", "inf", "nan", "1a", "a1", "-", ".", "1.", ".5", "-1.5", "100", "1e2", "-2")
+	rtoks := append(words("ab", 2), "1", "2", "10", "-1", "1.5", "1e1", "01", "1.0", "0", "-0", "9", "11", "1.49", "2e0", "inf", "nan", "1a", "a1", "-", ".", "1.", ".5", "-1.5", "100", "1e2", "-2", "+1", "+1.5", "+1e1", "+", "+a")
 	sortedR := append([]string{}, rtoks...)
 	sort.Strings(sortedR)
 	for _, f := range ends {
@@ -343,7 +374,7 @@ func TestVerifC13(t *testing.T) {
 	r.Sample(c13Case{Kind: "layout", Query: `f:"ab*"`, Tokens: []string{"a", "ab", "aba", "b"}, Ordered: true, Split: []int{1, 2, 1}})
 	ev := r.Get("evaluations")
 	r.Finish(t, "model_checking",
-		fmt.Sprintf("all patterns over {a,b,*} len<=%d x all tokens over {a,b} len<=%d (quoted and bare query forms, ordered and unordered provider); all ranges over %d ends x 4 bracket forms; all sorted dictionaries of <=%d tokens from the 15 tokens of len<=3 x every split into consecutive blocks x all patterns len<=%d; on a real active and sealed fraction every ordered pair of 2x wildcard patterns (len<=3) and 4 numeric ranges resolved in ONE search (p1 OR p2, p1 AND NOT p2) vs the reference. non-trivial = the case matches some but not all tokens", patLen, tokLen, len(ends), dictMax, layoutPatLen),
+		fmt.Sprintf("all patterns over {a,b,*} len<=%d x all tokens over {a,b} len<=%d (quoted and bare query forms, ordered and unordered provider); the same over {a, byte 0xff} len<=3 with case-sensitive parsing; all ranges over %d ends x 4 bracket forms; all sorted dictionaries of <=%d tokens from the 15 tokens of len<=3 x every split into consecutive blocks x all patterns len<=%d; on a real active and sealed fraction every ordered pair of 2x wildcard patterns (len<=3) and 4 numeric ranges resolved in ONE search (p1 OR p2, p1 AND NOT p2) vs the reference. non-trivial = the case matches some but not all tokens", patLen, tokLen, len(ends), dictMax, layoutPatLen),
 		map[string]any{
 			"states":                        r.DistinctCount("outcomes"),
 			"transitions":                   ev,
